@@ -210,6 +210,7 @@ func Explore(sc *core.Scenario, ex *Extra, tier string, st *core.Stats) ([]Hit, 
 		return hits, ""
 	}
 	image, bounds, W := w.Image, w.Bounds, w.Calls
+	st.AddDistinct(core.HashStr(string(image))) // the stored bytes themselves are a function of the scenario
 	st.Probes["image-bytes"] += int64(len(image))
 	st.Probes["store-write-calls"] += int64(W)
 	blueprint := lib.Library[ast.GetKnowledgeBaseKey(esim.KBName, esim.KBVersion)]
